@@ -318,6 +318,27 @@ func locksMain(args []string) {
 		}
 	}
 	accountant.VerifTruncateDepth = 0
+	// B2. a gossiped vertex that claims a huge weight triggers the truncation loop on a graph that is far shallower
+	// than the truncation depth; the loop must survive that, and the next hundred admissions must not block on
+	// the loop's signal channel (capacity 50, written while the book lock is held)
+	for _, claimed := range []uint64{150_000, 1_000_000} {
+		claimed := claimed
+		r.fresh()
+		r.scenario("truncate.weighttrigger", int(claimed/1000), func(lb *lockBook) string {
+			tip, _ := lb.propose(context.Background())
+			v, _ := accountant.NewVertex(lb.newTrx(), tip.Hash, tip.Hash, claimed, &lb.b)
+			if err := lb.ab.AddLeaf(context.Background(), &v); err != nil {
+				return "addleaf:" + errClass(err)
+			}
+			time.Sleep(100 * time.Millisecond)
+			for i := 0; i < 110; i++ {
+				if _, err := lb.propose(context.Background()); err != nil {
+					return "propose:" + errClass(err)
+				}
+			}
+			return "ok"
+		})
+	}
 	// C. validation error inside a walk: a tip whose funds do not suffice is dropped by the next proposal
 	r.fresh()
 	r.scenario("propose.invalidtip", 0, func(lb *lockBook) string {
